@@ -75,7 +75,7 @@ def configs(tier):
     return cs
 
 
-def alphabet(tier, expanded, extent_a):
+def alphabet(tier, expanded, extent_a, extent_b=()):
     nreg = 5 if tier == "quick" else len(REGIONS)
     ev = []
     cs = [[0]] if expanded else [None]
@@ -118,6 +118,9 @@ def alphabet(tier, expanded, extent_a):
                                    ["hell", 0, 0, None]]])
     for x in sorted(extent_a)[:2 if tier == "quick" else 3]:
         ev.append(["drop", x])
+    # labels along two dimensions dropped by one call
+    if extent_a and extent_b:
+        ev.append(["drop2", sorted(extent_a)[0], sorted(extent_b)[-1]])
     ev.append(["new_session"])
     # the harvester object copied (as sowing a crop does with its farmer) or
     # sent through pickle: the copy holds what the original held, including
@@ -391,6 +394,22 @@ class World:
             new = {k: v for k, v in src.items() if ("a", x) not in k[1]}
             m.mem = new
             m.disk = dict(new)
+        elif kind == "drop2":
+            x, yb = ev[1], ev[2]
+            try:
+                if len(m.disk or {}) % 2:
+                    self.h.drop_sel({"b": yb, "a": x})
+                else:
+                    self.h.drop_sel(b=yb, a=x)
+            except Exception as e:
+                vio.append(("raised:" + type(e).__name__,
+                            "drop_sel(a=%r, b=%r) raised %r" % (x, yb, e)))
+                return vio
+            src = m.mem if m.mem is not None else m.disk
+            new = {k: v for k, v in src.items()
+                   if ("a", x) not in k[1] and ("b", yb) not in k[1]}
+            m.mem = new
+            m.disk = dict(new)
         elif kind == "new_session":
             self.h = self.new_harvester()
             m.mem = None
@@ -546,7 +565,8 @@ def expand(task):
     # no second writer - another Harvester object, save_merge_ds - while it
     # lives; HDF5 refuses one anyway)
     PRELOADED[0] = bool(cfg.get("chunks"))
-    events = alphabet(tier, w.model.expanded, extent_a)
+    extent_b = {dict(k[1])["b"] for k in src}
+    events = alphabet(tier, w.model.expanded, extent_a, extent_b)
     for n, ev in enumerate(events):
         if n:
             w = build(cfg, hist, d)
